@@ -59,7 +59,7 @@ claimed = {
             'the lookup result at one moment inside the call (the same lemma makes a writer\'s view of parent / node / child accurate '
             'when it commits); and the meaning of the read-protocol acceptor (C03_protocol_*: no unvalidated read, child locked before '
             'the parent is released, versions used only for their own node, no guard left), which is extracted and run on the events of '
-            'every get / insert / remove of every sampled execution; and the WRITER THEOREMS (Olc/WriteModel.v, C03_*_commit_ok, '
+            'every get / insert / remove of every sampled execution; and the WRITER THEOREMS (Olc/WriteModel.v, C03_insert_commit, C03_remove_commit, '
             'C03_generated_*): the seven atomic commit shapes of an ART writer (add / remove leaf, root cases, leaf split, node '
             'replacement for growth and shrink, prefix split, collapse with prefix prepend) preserve well-formedness, change the '
             'abstract map exactly like map insert / remove, bump the word of every node they change and obsolete every node they '
@@ -90,10 +90,15 @@ claimed = {
             'increasing keys within the bound, each with a value held at the query moment, never a key absent throughout, and every key '
             'present throughout (all five statements of the property, for all histories and scan lengths); and C09_chain_is_scan / '
             'C09_chain_exhausted: in any sequence accepted by the verified linearizability validator the successor queries of one scan '
-            'form exactly such an abstract scan over the maps the sequence goes through. NOT a Coq theorem: that the iterator code '
-            'realises such a sequence under every interleaving. That is decided on the implementation: every scan (scan, scan_from, '
-            'scan_range, both directions, halting visitors) of every explored execution is turned into its chain of successor queries '
-            '(stamped with the scheduler clock) and must be accepted by the validator together with the racing inserts / removes; '
+            'form exactly such an abstract scan over the maps the sequence goes through; and the ITERATOR THEOREMS (Olc/IterModel.v, C09c_*): '
+            'over any history of heaps obeying the lock discipline and the writers\' rely conditions, a successful forward try_next '
+            '(any stack depth), try_first and every ending of try_seek are INTERVAL successor queries (the delivered entry is present '
+            'at some moment of the step, every key in between is absent at some moment of it), an iterator run is a chain of them, '
+            'and order / bounds / values / completeness for stable keys follow; a step is provably NOT an atomic successor query '
+            '(C09c_step_not_atomic), which corrected an earlier, too strong check. NOT a Coq theorem: that the C++ iterator\'s events '
+            'are such a run under every interleaving. That is decided on the implementation: every scan (scan, scan_from, '
+            'scan_range, both directions, halting visitors) of every explored execution is validated step by step as an interval '
+            'successor query against some linearization of the racing inserts / removes (witness checked by the verified validator); '
             'order, interval, value provenance and exactly-once delivery of untouched keys are checked again directly; iterator steps '
             'must use saved versions only for their own node (extracted acceptor).', '5 C09',
             'Trusted: as C03; reverse scans by symmetry (not restated in Coq); the per-execution scan checker is Python (tools/p_olc.py).',
